@@ -1,4 +1,5 @@
-"""UNUSED rule: a parameter (or a plainly assigned local) that nothing reads.
+"""NET rules (generic nets run for every property over its anchor modules): UNUSED -- a parameter (or a plainly
+assigned local) that nothing reads; LEAK -- a loop variable read after its loop; QUANT -- existential rejections.
 
 Across the 88 modules of this repository, 16 of 1912 parameters and 8 locals are never read, all for interface
 conformance (``**kwargs`` of Observable.apply, ``__exit__`` arguments, ...); they are frozen below with a reason.
@@ -74,7 +75,7 @@ def _is_stub(f) -> bool:
     return any("abstractmethod" in ast.unparse(d) for d in f.node.decorator_list)
 
 
-def check(E: Engine, rep: Report, pid: str, rule: str = "UNUSED", extra_modules: tuple = ()) -> dict:
+def check(E: Engine, rep: Report, pid: str, rule: str = "NET", extra_modules: tuple = ()) -> dict:
     mods = anchor_modules(E, pid) | set(extra_modules)
     n_par = n_loc = 0
     for f in E.P.all_functions():
@@ -146,6 +147,35 @@ def check(E: Engine, rep: Report, pid: str, rule: str = "UNUSED", extra_modules:
                 rep.excepted(rule, key + "|loop-variable-read-after-loop", allowed[1], E.where(f, first[nm]))
             else:
                 rep.violation(rule, key + "|loop-variable-read-after-loop", f"{f.short} reads the loop variable `{nm}` after its loop ({c_} read(s)" + (f", {allowed[0]} confirmed" if allowed else "") + "): it then holds the element of the LAST iteration, which is rarely the one meant (first element / a specific one)", E.where(f, first[nm]))
+    # QUANT: a rejection over an array comparison is existential -- `if np.any(<violation>): raise` or
+    # `if not np.all(<requirement>): raise`.  `np.all(<violation>)` (or `not np.any(<requirement>)`) only rejects
+    # inputs that are wrong everywhere and lets partly wrong ones through (12 sites on the tree, no exception).
+    n_q = 0
+    for f in E.P.all_functions():
+        if f.kind == "overload" or f.module.name not in mods:
+            continue
+        for n in ast.walk(f.node):
+            if not (isinstance(n, ast.If) and any(isinstance(s_, ast.Raise) for s_ in n.body)):
+                continue
+
+            def visit(e, neg):
+                nonlocal n_q
+                if isinstance(e, ast.UnaryOp) and isinstance(e.op, ast.Not):
+                    visit(e.operand, not neg)
+                    return
+                if isinstance(e, ast.BoolOp):
+                    for v in e.values:
+                        visit(v, neg)
+                    return
+                if isinstance(e, ast.Call) and isinstance(e.func, (ast.Attribute, ast.Name)) and (e.func.attr if isinstance(e.func, ast.Attribute) else e.func.id) in ("any", "all") and e.args and isinstance(e.args[0], ast.Compare):
+                    kind = e.func.attr if isinstance(e.func, ast.Attribute) else e.func.id
+                    n_q += 1
+                    existential = (kind == "any") != neg
+                    key = f"{f.short}|{ast.unparse(e.args[0])[:40]}"
+                    if not existential:
+                        rep.violation(rule, key + "|rejection-is-existential", f"{f.short} rejects only `{'not ' if neg else ''}{ast.unparse(e)[:80]}`: the input is refused only when EVERY element violates the comparison; a partly wrong input passes (the rejection must be np.any(<violation>) or not np.all(<requirement>))", E.where(f, e))
+
+            visit(n.test, False)
     if n_par < 5:
         rep.error(f"UNUSED: only {n_par} parameters inspected for {pid} (anchor modules not found?)")
-    return {"parameters_inspected": n_par, "locals_inspected": n_loc, "post_loop_reads": n_leak}
+    return {"parameters_inspected": n_par, "locals_inspected": n_loc, "post_loop_reads": n_leak, "array_rejections": n_q}
